@@ -543,7 +543,10 @@ class BezierPath(BooleanOperationsMixin, SampleMixin, object):
         """Returns a Path made up of line segments that approximate the path."""
         segs = []
         for s in self.asSegments():
-            segs.extend(s.flatten(degree))
+            for flattened in s.flatten(degree):
+                # A Line flattens to itself: copy it, so that the new path
+                # does not share segment objects with this one
+                segs.append(flattened.clone() if flattened is s else flattened)
         flat = BezierPath.fromSegments(segs)
         flat.closed = self.closed
         return flat
